@@ -93,6 +93,7 @@ def _mk_iter(d, kind=None):
 def builtin(s, ctx, func, g, tc, A, caller, ln=None):
     if False: yield None
     last = g.split('::')[-1]
+    g = re.sub(r'<impl \[[^\]]*\]>', '<impl [T]>', g)          # slice methods on any element type
     r = yield from _builtin(s, ctx, func, g, tc, A, caller, ln, last)
     if r is not NotImplemented: ctx.builtins_used.add(re.sub(r"<'_, |'_, ", '', g)[:90])
     return r
@@ -117,7 +118,7 @@ def _builtin(s, ctx, func, g, tc, A, caller, ln, last):
     if E('OnceLock::new') or E('OnceCell::new'): return OnceM()
     if E('Once::call_once') or E('Once::call_once_force'):
         o = yield from s.force_static(ctx, A[0]) if isinstance(A[0], Ref) else deref(A[0])
-        yield from s.sched_point(ctx, 'once')
+        if not o.done: yield from s.sched_point(ctx, 'once')
         if not o.done:
             if o.running is not None and o.running != ctx.tid:
                 # another thread is inside the initialiser: block until done (modelled as a lock)
@@ -130,7 +131,7 @@ def _builtin(s, ctx, func, g, tc, A, caller, ln, last):
         o = yield from s.force_static(ctx, A[0]); return o.done
     if E('OnceLock::get_or_init') or E('OnceCell::get_or_init'):
         o = yield from s.force_static(ctx, A[0]) if isinstance(A[0], Ref) else deref(A[0])
-        yield from s.sched_point(ctx, 'once')
+        if not o.done: yield from s.sched_point(ctx, 'once')
         if not o.done:
             if o.running is not None and o.running != ctx.tid: raise Unsupported('OnceCell contention')
             o.running = ctx.tid
@@ -620,7 +621,8 @@ def _builtin(s, ctx, func, g, tc, A, caller, ln, last):
     # ------------------------------------------------------------ atomics
     if re.search(r'Atomic(U64|Usize|U32|<.*>)?::new$', g) or E('Atomic::new'): return Agg('Atomic', 0, [A[0]])
     if re.search(r'Atomic\w*::(fetch_add|fetch_sub|load|store|swap|compare_exchange|compare_exchange_weak|fetch_max|fetch_min)$', g):
-        a = deref_all(A[0]); yield from s.sched_point(ctx, 'atomic')
+        a = deref_all(A[0])
+        if getattr(s, 'sched_atomics', False): yield from s.sched_point(ctx, 'atomic')
         old = a.fields[0]
         if last == 'load': return old
         if last == 'store': a.fields[0] = A[1]; return unit()
@@ -667,7 +669,7 @@ def _builtin(s, ctx, func, g, tc, A, caller, ln, last):
         if not isinstance(m, MapM): raise Unsupported('DashMap op on ' + type(m).__name__)
         if m.shard is None: m.shard = LockM(None, 'shard', 'RwLock')
         mode = 'r' if op in ('get', 'contains_key', 'len', 'iter', 'is_empty') else 'w'
-        gd = yield from s.acquire(ctx, m.shard, mode)
+        gd = yield from s.acquire(ctx, m.shard, mode, 'all' if op in ('len', 'is_empty', 'clear', 'iter', 'iter_mut', 'retain') else 1)
         if op == 'len': s.drop_val(ctx, gd); return len(m.items)
         if op == 'is_empty': s.drop_val(ctx, gd); return len(m.items) == 0
         if op == 'clear': m.items.clear(); s.drop_val(ctx, gd); return unit()
